@@ -64,7 +64,8 @@ def logic_in_filter_actions(rep):
         top = "".join('eprintln("T%d {}", %s);\n' % (i, e) for i, e in enumerate(ch))
         act = "".join('eprintln("F%d {}", %s); ' % (i, e) for i, e in enumerate(ch))
         pat = "".join('@ true { let w%d = %s; eprintln("L%d {}", w%d); }\n' % (i, e, i, i) for i, e in enumerate(ch[:8]))
-        jobs.append((["-s", "-c", top + "@ true { " + act + "}\n" + pat], cap))
+        lead = "@ true\n@ NP == 1\n" if len(jobs) % 2 else ""
+        jobs.append((["-s", "-c", top + lead + "@ true { " + act + "}\n" + pat], cap))
     n = 0
     for ch, r in zip(chunks, e2e.run_many(jobs)):
         lines = {}
